@@ -69,6 +69,12 @@ def _gen_stream(rng, tier, variant):
                 cnt[a] += 1
             yield {'def': dh, 'pkts': pk, 'opts': {'combine_segmented_packets': True,
                                                    'secondary_header_bytes': rng.choice([0, 2])}}
+    for counts in ([10, 12, 11, 13], [5, 5, 7], [16382, 0, 16383, 1], [3, 4, 6], [3, 5, 4], [7, 8, 9], [16383, 0, 1]):
+        for apid in (5, 9):
+            flags = [1] + [0] * (len(counts) - 2) + [2]
+            pk = [gen_packet(rng, dh, body_len=rng.randint(3, 5), apid=apid, seqflags=f, seqcount=c).hex()
+                  for f, c in zip(flags, counts)]
+            yield {'def': dh, 'pkts': pk, 'opts': {'combine_segmented_packets': True, 'secondary_header_bytes': rng.choice([0, 2])}}
     for _ in range(150 if tier == 'quick' else 3000):
         ln = rng.randint(3, 9)
         cnt = {5: rng.choice([0, 16380]), 9: 3}
@@ -115,7 +121,7 @@ _SREF = ("ref_stream(self, raws, headers_only=opts.get('ccsds_headers_only', Fal
 CONTRACTS = [
     Contract(
         target='xtce.definitions.XtcePacketDefinition.parse_ccsds_packet',
-        props=['C05', 'C01', 'C11'],
+        props=['C05', 'C01', 'C11', 'C04', 'C07', 'C08', 'C06'],
         params={}, native_only=PENDING,
         requires=[f"{_REF}[0] != 'error'"],
         ensures={
@@ -124,6 +130,8 @@ CONTRACTS = [
             'items': f'result is packet and same_items(result, {_REF}[1])',
             'views': 'list(result.header.items()) == list(result.items())[:7] and '
                      'list(result.user_data.items()) == list(result.items())[7:]',
+            # C11: parsing never modifies the definition
+            'definition_unchanged': 'canon_definition(self) == old(canon_definition(self))',
         },
         raises={'UnrecognizedPacketTypeError': f"{_REF}[0] == 'unrecognized'"},
         ensures_raise={'UnrecognizedPacketTypeError': {
@@ -140,6 +148,7 @@ CONTRACTS = [
             # C11: in stream order exactly what parsing each packet on its own yields; C12: per-APID reassembly;
             # C14: yielded without the length warning iff all bits were consumed (and withheld when excluded)
             'stream': f'stream_matches(result, {_SREF})',
+            'definition_unchanged': 'canon_definition(self) == old(canon_definition(self))',
         },
         modifies=[],
         native={'gen': _gen_stream, 'build': _build_stream},
@@ -169,11 +178,17 @@ def _enrich(rng, d):
             d['ptypes'].append({'name': 'TAIL_T', 'kind': 'int', 'w': 8, 'enc': 'unsigned', 'order': 'mostSignificantByteFirst'})
             d['params'].append({'name': 'TAIL', 'type': 'TAIL_T'})
             conts.append({'name': p['name'] + '_ALWAYS', 'entries': ['TAIL'], 'base': p['name'], 'criteria': [], 'abstract': False})
-    if rng.random() < 0.5:
-        # forward reference: move SUB after its users
+    if rng.random() < 0.6:
+        # forward references: several users of SUB, its own element placed after the first user, between users or last
         sub = [c for c in conts if c['name'] == 'SUB'][0]
+        kids = [c for c in conts if c['base'] == 'CCSDSPacket']
+        for kdef in kids:
+            if rng.random() < 0.6 and not any(isinstance(e, dict) for e in kdef['entries']):
+                kdef['entries'].append({'c': 'SUB'})
         conts.remove(sub)
-        conts.append(sub)
+        users = [i for i, c in enumerate(conts) if any(isinstance(e, dict) and e['c'] == 'SUB' for e in c['entries'])]
+        pos = rng.choice([len(conts)] + [u + 1 for u in users]) if users else len(conts)
+        conts.insert(pos, sub)
     if rng.random() < 0.5:
         d['ptypes'].append({'name': 'BLOB_T', 'kind': 'bin', 'ref': 'MODE', 'use_cal': rng.choice([True, False]),
                             'adj': [8, rng.choice([0, 8])]})
@@ -296,7 +311,7 @@ def _build_load(r):
 CONTRACTS += [
     Contract(
         target='xtce.definitions.XtcePacketDefinition.from_xtce',
-        props=['C16', 'C17', 'C05', 'C01'],
+        props=['C16', 'C17', 'C05', 'C01', 'C04', 'C06', 'C07', 'C08'],
         params={}, native_only=PENDING,
         requires=[],
         ensures={
